@@ -174,6 +174,12 @@ type c01Script struct {
 	// unfiltered one): a marker publication has no tags, so a tags filter would hide whatever a
 	// subscriber does with it
 	NoFilter bool `json:"no_filter,omitempty"`
+	// client subscribe command only, with NoFilter: the subscription negotiates fossil delta
+	// compression (AllowedDeltaTypes + "delta" in the request).  The driver hands publications to the
+	// node without a previous publication, so every push carries the full payload (as an escaped
+	// JSON string); what differs is the connection's bookkeeping (flagDeltaAllowed is set in a
+	// second lock section after the first publication's position update)
+	Delta bool `json:"delta,omitempty"`
 	// C38 only, with Medium: the medium runs with its queue, its real writer goroutine and this
 	// BroadcastDelay (real time).  Publications are then forwarded asynchronously: the driver hands
 	// one to the node and waits until the medium has forwarded it before its next step (so no
@@ -223,6 +229,7 @@ type c01World struct {
 	delivK     []string    // the same as comparable keys (pub:<id> | join | leave)
 	batchOff   int32
 	skew       int64
+	subEnd     bool // Client.IsSubscribed(channel) when the schedule ended
 	inCheck    bool
 	checkDiscs int
 	lastLive   string // Coq term: option frame (C38's end-to-end cases)
@@ -297,6 +304,7 @@ func c01NewWorld(t *testing.T, sc *c01Script) *c01World {
 			w.subCb = func() {
 				cb(SubscribeReply{Options: SubscribeOptions{
 					EnablePositioning: sc.Pos, EnableRecovery: sc.Pos, AllowTagsFilter: true, PushJoinLeave: sc.JL,
+					AllowedDeltaTypes: c01DeltaTypes(sc),
 				}}, nil)
 			}
 		})
@@ -396,6 +404,20 @@ func (w *c01World) topOffset() uint64 {
 }
 
 // ---- environment operations ----
+
+func c01DeltaReq(sc *c01Script) string {
+	if sc.Delta {
+		return string(DeltaTypeFossil)
+	}
+	return ""
+}
+
+func c01DeltaTypes(sc *c01Script) []DeltaType {
+	if sc.Delta {
+		return []DeltaType{DeltaTypeFossil}
+	}
+	return nil
+}
 
 func c01Filter(sc *c01Script) *protocol.FilterNode {
 	if sc.NoFilter {
@@ -938,7 +960,7 @@ func (w *c01World) subscribe() {
 		go func() { w.client.HandleCommand(&protocol.Command{Id: 1, Connect: req}, 0); close(done) }()
 	} else if !sc.Server {
 		ok := w.client.HandleCommand(&protocol.Command{Id: 7, Subscribe: &protocol.SubscribeRequest{
-			Channel: c01Ch, Recover: sc.Pos && sc.Rec, Offset: w.since, Epoch: w.epStr[w.sinceEp], Tf: tf}}, 0)
+			Channel: c01Ch, Recover: sc.Pos && sc.Rec, Offset: w.since, Epoch: w.epStr[w.sinceEp], Tf: tf, Delta: c01DeltaReq(sc)}}, 0)
 		if !ok || w.subCb == nil {
 			w.fail("subscribe command not accepted")
 			w.br.hook = nil
@@ -1075,6 +1097,7 @@ func (w *c01World) run() {
 	}
 	w.phase(8)
 	w.cwEnd = w.cwLen()
+	w.subEnd = w.client.IsSubscribed(c01Ch)
 	// drain the writer
 	if !w.tr.isClosed() {
 		_ = w.client.Send([]byte(`"c01-end"`))
@@ -1110,7 +1133,14 @@ func (w *c01World) pubOf(p *protocol.Publication) c01Pub {
 	var d struct {
 		I int `json:"i"`
 	}
-	_ = json.Unmarshal(p.Data, &d)
+	data := p.Data
+	if len(data) > 0 && data[0] == '"' { // fossil-delta subscription over JSON: the payload is an escaped string
+		var str string
+		if json.Unmarshal(data, &str) == nil {
+			data = []byte(str)
+		}
+	}
+	_ = json.Unmarshal(data, &d)
 	src, ok := w.byID[d.I]
 	ep := uint64(98)
 	if ok {
@@ -1233,7 +1263,7 @@ func (w *c01World) caseTerm(frames []c01Frame) string {
 		variant = "VConnect"
 	}
 	return vApp("mkCase", variant, vBool(w.sc.Pos), vBool(w.sc.Pos && w.sc.Rec), vN(w.since), vN(w.sinceEp), vBool(w.sc.JL), vBool(w.sc.Batch),
-		vList(w.sched), c01CoqFrames(frames), c01CoqPubs(w.glog), vN(uint64(w.cwEnd)), vList(w.deliv))
+		vList(w.sched), c01CoqFrames(frames), c01CoqPubs(w.glog), vN(uint64(w.cwEnd)), vBool(w.subEnd), vList(w.deliv))
 }
 
 // ---- classification helpers (for the evidence histogram and finding keys) ----
